@@ -73,3 +73,20 @@ func init() {
 	checks["C14"] = checkC14
 	replayers["C14"] = replaySemCase(&SemOpts{})
 }
+
+func checkC03(c *Ctx) {
+	o := &SemOpts{}
+	cfg := "FamScope_quick.cfg"
+	if c.Tier == "thorough" {
+		cfg = "FamScope_thorough.cfg"
+	}
+	c.runSemFamily("FamScope", cfg, o, 60*time.Minute)
+	c.cov("exhaustive", true)
+	c.cov("rule", "FamScope: every history of total size Budget (declare / declare without initialiser / assign / read over the colliding names a and b, nested blocks, one-iteration for (declaring a colliding name) and while, a function declaration with such a body, calls) that is inside the property's domain, plus NRandom seeded random longer histories; each site stores its own line number, each read prints; non-trivial = prints or fails")
+	semAssumptions(c)
+}
+
+func init() {
+	checks["C03"] = checkC03
+	replayers["C03"] = replaySemCase(&SemOpts{})
+}
